@@ -1,4 +1,11 @@
-"""Single source of truth for MANIFEST.json (`./mkmanifest` rewrites it from here)."""
+"""Single source of truth for MANIFEST.json (`./mkmanifest` rewrites it from here).
+
+A property is claimed iff harness/props/cXX.py exists and defines CLAIM =
+{"technique", "text", "note", "design_ref"}.  Everything else is listed under
+not_applicable with the reason in NOT_CLAIMED.
+"""
+import importlib
+from pathlib import Path
 
 ALL_IDS = [f"C{n:02d}" for n in range(1, 21)]
 
@@ -7,23 +14,18 @@ COMMON_NOTE = (
     "native_decide/bv_decide/sorry/axiom). The theorem is about the Lean model; the model is tied to /repo on every run by "
 )
 
-# property id -> claim. Properties absent from CLAIMS are listed under not_applicable with NOT_YET[pid].
-CLAIMS: dict[str, dict] = {
-    "C09": {
-        "technique": "Lean 4 proof (refinement of the optimised router/bus to linear first-match) + model/code correspondence",
-        "text": (
-            "Proved in Lean for every recipe length, checker arrangement and request: the handlers handed out by the "
-            "ExactOriginCombiner/LocatedRequestRouter model are exactly the matching providers in recipe order, each "
-            "once (combine_refines_linear, no_provider_twice); the bus with ChainingProvider equals the documented "
-            "first-match/Chain.FIRST/Chain.LAST meaning (send_eq_spec, chain_first_once, chain_last_once); extend "
-            "prepends. The model is tied to the code by four correspondences (router items, router walk, bus outcome "
-            "with the real ChainingProvider, public facade incl. extend/replace/nested retort)."
-        ),
-        "note": COMMON_NOTE + "differential correspondence (exhaustive over short recipes, random beyond). Checkers are assumed pure; "
-                "predicates themselves are C10.",
-        "design_ref": "DESIGN.md §4 C09",
-    },
-}
+NOT_CLAIMED = {pid: "machinery for this property is not built yet (DESIGN.md §4 describes the planned Lean model and "
+                    "theorems); not claimed until its check exists" for pid in ALL_IDS}
 
-NOT_YET = {pid: "machinery for this property is not built yet (DESIGN.md §4 describes the planned Lean model and theorems); not claimed until its check exists"
-           for pid in ALL_IDS}
+
+def claims() -> dict[str, dict]:
+    out = {}
+    for pid in ALL_IDS:
+        f = Path(__file__).parent / "props" / f"{pid.lower()}.py"
+        if not f.exists():
+            continue
+        mod = importlib.import_module(f"harness.props.{pid.lower()}")
+        c = getattr(mod, "CLAIM", None)
+        if c:
+            out[pid] = c
+    return out
